@@ -636,14 +636,18 @@ def run_c11(pid, tier, seed, rundir, model_run, res, count):
             open(sb.path("outer", "b"), "wb").write(b"outside too")
             before_out = {f: open(os.path.join(sb.path("outer"), f), "rb").read() for f in os.listdir(sb.path("outer")) if os.path.isfile(os.path.join(sb.path("outer"), f))}
             stream = MAGIC + frame(req_hello())
+            after_hashes = []
             for p in paths:
                 c = b"payload-" + p.encode()[:20]
                 h = bytes.fromhex(blake3_hex([c])[0])
                 c2 = b"loses the CAS-" + p.encode()[:20]
                 h2 = bytes.fromhex(blake3_hex([c2])[0])
                 # … and a Put with a STALE expectation: its bytes go to a conflict-copy name built from the path — inside the root too
+                c3 = b"accepted whatever came before " + str(len(stream)).encode()
+                h3 = bytes.fromhex(blake3_hex([c3])[0])
                 stream += (frame(req_get(p)) + frame(req_put(p, None, len(c), h)) + c + frame(req_put(p, h2, len(c2), h2)) + c2
-                           + frame(req_delete(p, h)) + frame(req_get("zz/keep")))
+                           + frame(req_delete(p, h)) + frame(req_get("zz/keep")) + frame(req_put(f"zz/after{len(stream)}", None, len(c3), h3)) + c3)
+                after_hashes.append(h3.hex())
             stream += frame(req_bye())
             tf = sb.path("trace.txt")
             rc, out, err = run_server(sb, root, stream, strace_out=tf)
@@ -667,10 +671,13 @@ def run_c11(pid, tier, seed, rundir, model_run, res, count):
                 res["violations"].append(("file-outside-root-changed", "a file outside the served directory was created, changed or removed", rep))
             count("sessions")
             count("fs-calls-seen", len(tp))
-            # replies: 5 per path (get, put, stale put, delete, get zz/keep) after the hello
+            # replies: 6 per path (get, put, stale put, delete, get zz/keep, put zz/after…) after the hello
             body = toks[1:]
             for k, p in enumerate(paths):
-                chunk = body[5 * k:5 * k + 5]
+                chunk = body[6 * k:6 * k + 6]
+                if len(chunk) == 6 and chunk[5] != f"put:1:{after_hashes[k]}":
+                    res["violations"].append(("following-request-answered-differently", f"after the requests for {p!r} an ordinary Put of a new file was answered {chunk[5]} (a fresh session answers put:1)", dict(rep, path=p, chunk=chunk)))
+                chunk = chunk[:5]
                 refused_real = (len(chunk) >= 4 and all(c == "error:bad_path" for c in chunk[:4]))
                 any_refused = any(c == "error:bad_path" for c in chunk[:4])
                 ops.append(f"safejoin {hexs(p)}")
